@@ -169,7 +169,32 @@ def run(F, R, ctx):
 
 
 IDX_RX = (r"\{impl Index(Mut)?<I> for (Vec<T,A>|\[T\]|str|String)\}::index(_mut)?$|\{impl \[T\]\}::(swap|split_at|split_at_mut)$|"
-          r"Vec<T,A>\}::(remove|insert|swap_remove|split_off)$|\{impl String\}::(insert|remove|split_off|replace_range|insert_str)$")
+          r"Vec<T,A>\}::(remove|insert|swap_remove|split_off)$|\{impl String\}::(insert|remove|split_off|replace_range|insert_str)$|"
+          # the persistent vector behind immutable vectors (steel-imbl) and SmallVec: the methods that assert on their position
+          r"steel_imbl::vector::\{impl GenericVector<A,P>\}::(set|update|insert|remove|split_off|split_at|take|slice)$|"
+          r"\{impl Index(Mut)?<usize> for GenericVector<A,P>\}::index(_mut)?$|smallvec::\{impl Index(Mut)?<I> for SmallVec<A>\}::index(_mut)?$")
+
+# positions that name an *element* (must be < len); the others name a cut point (<= len is fine)
+ELEM_RX = r"::index(_mut)?$|::(set|update|remove|swap|swap_remove)$"
+_FLIP = {"Lt": "Gt", "Le": "Ge", "Gt": "Lt", "Ge": "Le", "Eq": "Eq", "Ne": "Ne"}
+_NEG = {"Lt": "Ge", "Le": "Gt", "Gt": "Le", "Ge": "Lt", "Eq": "Ne", "Ne": "Eq"}
+
+
+def _relation_on_the_way(fn, sb, i, op, pos_side):
+    """the comparison `pos <op'> len` that holds on the edge of bool switch sb leading to block i (None: both edges lead there)"""
+    blk = fn.blocks[sb]
+    f = [t for v, t in blk["targets"] if v == "0"]
+    f = f[0] if f else None
+    t = blk["otherwise"]
+    rt = t == i or i in fn.reachable_from([t], avoid={sb})
+    rf = f is not None and (f == i or i in fn.reachable_from([f], avoid={sb}))
+    if rt == rf:
+        return None
+    if pos_side == 1:
+        op = _FLIP[op]
+    if not rt:
+        op = _NEG[op]
+    return op
 
 
 SLICE_ALLOW = {
@@ -278,12 +303,15 @@ def slice_guard_rule(F, R):
             for l_ in lens:
                 len_org |= _origins(fn, l_, maps) | {l_}
             distinguishing = org - len_org          # what the position depends on and no length does
+            relations = []
+            mvonly = (maps[0], {}, {})
             if not guarded:
-                cmp_ops = {}
+                cmp_ops, cmp_opname = {}, {}
                 for blk2 in fn.blocks:
                     for e in blk2["e"]:
                         if e[0] == "der" and len(e) >= 5 and e[3] in ("Lt", "Le", "Gt", "Ge", "Eq", "Ne"):
                             cmp_ops.setdefault(e[1], {}).setdefault(e[4], set()).update(lib.TOK.findall(lib._norm(e[2])))
+                            cmp_opname[e[1]] = e[3]
                 for sb in dom[i]:
                     blk = fn.blocks[sb]
                     if blk["k"] != "switch" or blk["on"] != "bool":
@@ -307,8 +335,20 @@ def slice_guard_rule(F, R):
                             on_pos = bool(sides[b_] & distinguishing)
                             if pure_len and on_pos:
                                 guarded = True
-                    if guarded:
-                        break
+                                # strictness, judged only when both sides are the plain values (no arithmetic in between)
+                                direct_pos = set()
+                                for t in ops.get(b_, ()):
+                                    direct_pos |= _origins(fn, t, mvonly)
+                                direct_len = set()
+                                for t in ops.get(a_, ()):
+                                    direct_len |= _origins(fn, t, mvonly)
+                                idx_direct = set()
+                                for p_ in pos:
+                                    idx_direct |= _origins(fn, p_, mvonly)
+                                if direct_pos & idx_direct and direct_len & lens:
+                                    opname = cmp_opname.get(c_)
+                                    rel = _relation_on_the_way(fn, sb, i, opname, b_) if opname else None
+                                    relations.append(rel)
                 # checked access idioms: the index went through `get`/`checked_*`/`min`
                 if not guarded and any(re.search(r"::(min|clamp|get|checked_sub)$", maps[2][o.split(".")[0]]["callee"])
                                        for o in org if o.split(".")[0] in maps[2]):
@@ -319,6 +359,21 @@ def slice_guard_rule(F, R):
                    "compares that position with the payload's length: an out-of-range argument is a bounds-check panic inside "
                    "the native frame (the host aborts) instead of an error value" % (fn.short(), b["line"]),
                    fn.loc(b["line"]), sample=True)
+            if guarded and relations:
+                elem = bool(re.search(ELEM_RX, b["callee"])) and not is_range
+                good = {"Lt"} if elem else {"Lt", "Le"}
+                ok = any(r in good for r in relations) or any(r is None for r in relations)
+                R.inst("C07.s", "%s / %s: the comparison admits only positions the operation accepts" % (
+                    fn.short(), lib.split_path(b["callee"])[-1]), ok,
+                       "%s compares the position with the length before %s (line %s), but on the way to the operation the "
+                       "comparison only establishes `position %s length` — %s: a position equal to (or beyond) the length "
+                       "reaches an operation that asserts on it, a bounds panic inside the native frame instead of an error "
+                       "value" % (fn.short(), lib.split_path(b["callee"])[-1], b["line"],
+                                  "/".join(sorted({"Lt": "<", "Le": "<=", "Gt": ">", "Ge": ">=", "Eq": "==", "Ne": "!="}[r]
+                                                  for r in relations if r)),
+                                  "an element position must be strictly below the length" if elem else
+                                  "a cut position must not exceed the length"),
+                       fn.loc(b["line"]), sample=True)
     R.floor("C07.s", "argument-derived index/slice sites in native primitives", n, 8)
 
 
